@@ -15,6 +15,7 @@ TCall == /\ l <= Len(Trace) /\ T.ev = "call" /\ l' = l + 1
          /\ CASE T.op = "start" -> UpStart(T.dt, Okd(T.base))
               [] T.op = "w"     -> UpWrite(T.dt, Okd(T.base))
               [] T.op = "stop"  -> UpStop(T.dt)
+              [] OTHER -> FALSE
          /\ ev'.base = T.base /\ ev'.nev = T.nev /\ ev'.err = T.err
 TNext == TNew \/ TCall
 =============================================================================
